@@ -68,7 +68,6 @@ func genChain(t *rapid.T) chainCase {
 	if rapid.Bool().Draw(t, "Lfree") {
 		l = rapid.IntRange(1, 130).Draw(t, "Lf")
 	}
-	c.Rows = tiedAlignment(t, aa, 1, 8, l, l)
 	c.Formats = append(c.Formats, rapid.SampledFrom(chainFormats).Draw(t, "first"))
 	k := rapid.IntRange(1, 5).Draw(t, "steps")
 	for i := 0; i < k; i++ {
@@ -78,6 +77,22 @@ func genChain(t *rapid.T) chainCase {
 	c.Phylip = rapid.SampledFrom([]string{"", "", "strict", "one-line", "no-block"}).Draw(t, "phylip")
 	for i := 0; i <= k; i++ {
 		c.Pipe = append(c.Pipe, rapid.IntRange(0, 2).Draw(t, "pipe") == 0)
+	}
+	// names: whatever every format met along the chain can represent
+	var d nameDom
+	for _, f := range c.Formats {
+		if f == "nexus" {
+			d.Nexus = true
+		}
+		if f == "phylip" && c.Phylip == "strict" {
+			d.Strict = true
+		}
+	}
+	if rapid.IntRange(0, 4).Draw(t, "tied") == 0 {
+		// the column-wise generator of the sweep (tied columns, plain names)
+		c.Rows = tiedAlignment(t, aa, 1, 8, l, l)
+	} else {
+		c.Rows = chainRows(t, aa, rapid.IntRange(1, 8).Draw(t, "rows"), l, d)
 	}
 	return c
 }
@@ -138,6 +153,32 @@ func checkChain(c chainCase) (o pbt.Outcome, err error) {
 	o.Class("first=%s", first)
 	o.Class("formats-in-chain=%d", len(distinct))
 	o.Class("alphabet=%s", c.Alphabet)
+	hostile, special := false, map[byte]bool{}
+	for _, r := range c.Rows {
+		if isDictionaryName(r.Name) {
+			hostile = true
+		}
+		for _, ch := range []byte("?*-") {
+			if strings.IndexByte(r.Seq, ch) >= 0 {
+				special[ch] = true
+			}
+		}
+		if strings.ToUpper(r.Seq) != r.Seq {
+			special['a'] = true
+		}
+	}
+	if hostile {
+		o.Class("a name of the hostile dictionary")
+	}
+	if special['?'] {
+		o.Class("residues contain ?")
+	}
+	if special['*'] {
+		o.Class("residues contain *")
+	}
+	if special['a'] {
+		o.Class("lower case residues")
+	}
 	if distinct["phylip"] {
 		o.Class("phylip-mode=%q", c.Phylip)
 	}
@@ -168,7 +209,7 @@ func genBoot(t *rapid.T) bootCase {
 	var c bootCase
 	c.Rows = tiedAlignment(t, false, 2, 8, 4, 40)
 	c.N = rapid.IntRange(1, pbt.Scale(6, 12)).Draw(t, "n")
-	c.Seed = rapid.Int64Range(0, 1<<40).Draw(t, "seed")
+	c.Seed = genSeed(t)
 	c.Model = rapid.SampledFrom([]string{"jc", "k2p", "pdist", "f81", "tn93", "f84"}).Draw(t, "model")
 	c.RmGaps = rapid.Bool().Draw(t, "rmgaps")
 	c.Alpha = rapid.SampledFrom([]string{"", "", "0.5", "1", "2.5"}).Draw(t, "alpha")
@@ -183,7 +224,7 @@ func checkBoot(c bootCase) (o pbt.Outcome, err error) {
 	dir := cli.TempDir("c11boot")
 	defer os.RemoveAll(dir)
 	in := cli.TempFile(dir, ".fa", cli.Fasta(c.Rows))
-	common := []string{"-n", fmt.Sprint(c.N), "--seed", fmt.Sprint(c.Seed)}
+	common := []string{"-n", fmt.Sprint(c.N), fmt.Sprintf("--seed=%d", c.Seed)}
 	if c.Frac != "" {
 		common = append(common, "-f", c.Frac)
 	}
@@ -250,6 +291,7 @@ func checkBoot(c bootCase) (o pbt.Outcome, err error) {
 	}
 	o.NonTrivial = strings.TrimSpace(db.Stdout) != "" && len(c.Rows) >= 2
 	o.Class("model=%s", c.Model)
+	o.Class(seedClass(c.Seed))
 	o.Class("n>1=%v", c.N > 1)
 	o.Class("partial=%v", c.Frac != "")
 	o.Class("gamma=%v", c.Alpha != "")
